@@ -114,9 +114,11 @@ class Bip32Prop(BaseProp):
             return {"ob": ob, "or": c_oracles(rec), "err": ob is None}
         if k == "PubPriv":
             s = case["start"]
-            rec, ob_prv = run_derive(s, case["path"], None)
+            rec, ob_prv = run_derive(s, case["path"], case.get("stub"))
             # neutered start: public key of the start node, same metadata
             rec2 = Recorder()
+            if case.get("stub"):
+                rec2.prf_stub = OrdinalStub(case["stub"])
             ob_pub = None
             with rec2.installed():
                 try:
